@@ -48,6 +48,7 @@ fn add_tok(m: &AddMode) -> &'static str {
         AddMode::BadSig => "badsig",
         AddMode::MalformedSig => "malformedsig",
         AddMode::Hold => "hold",
+        AddMode::SubErrUntilReg => "suberr-until-reg",
     }
 }
 fn reg_tok(m: &RegMode) -> &'static str {
@@ -222,8 +223,21 @@ fn monitors(w: &mut PWorld, g: &mut Ghost, ev: &PEv, reply: &str, view: &View, t
         }
     }
     // ---- C13: a manual retry is accepted exactly in the documented states
-    if let PEv::Retry(_) = ev {
-        // checked by the caller, which knows the state before the call
+    if let PEv::Retry(t) = ev {
+        // (the gate is checked by the caller, which knows the state before the call)
+        // an accepted manual retry of a tower that answers correctly — or that only insists on a renewed
+        // subscription and hands one out — delivers everything that was pending: reachable, nothing pending
+        let renewable = {
+            let s = w.towers[*t as usize].st.lock().unwrap();
+            !s.down && matches!(s.add, AddMode::Accept | AddMode::SubErrUntilReg) && s.reg == RegMode::Accept && s.once.is_empty() && s.held.is_empty()
+        };
+        if reply == "ok" && renewable && !timed {
+            if let Some(tv) = view.towers.get(t) {
+                if tv.status != "m" && (tv.status != "r" || !tv.pending.is_empty()) {
+                    out.push(Rec::Fail("C13", "not_delivered_after_renewal".into(), format!("retrytower was accepted and tower {t} hands out a renewed subscription and takes appointments, yet at the next stable point it is shown `{}` with {:?} pending", tv.status, tv.pending)));
+                }
+            }
+        }
     }
 }
 
@@ -248,6 +262,8 @@ pub fn run_scenario(sc: &Scenario, idx: usize) -> Vec<Rec> {
                     || prev.rows.rcpts.contains_key(&(*t, *l))
                     || prev.rows.inval.contains(&(*t, *l))
                     || !holding.is_empty()
+                    // the model of a held request has no one-shot reply queued in front of it
+                    || !w.towers[*t as usize].st.lock().unwrap().once.is_empty()
             }
             PEv::Register(t) => holding.contains(t),
             PEv::Add(t, _) | PEv::AddOnce(t, _) | PEv::Down(t, _) => holding.contains(t),
@@ -307,10 +323,15 @@ pub fn run_scenario(sc: &Scenario, idx: usize) -> Vec<Rec> {
                     Err(e) => err_class(&e),
                 };
                 // documented: accepted exactly when the tower is unreachable or has a subscription error
-                // (at a stable point no retrier is running)
+                // and no retrier is running for it (at a stable point a retrier runs only while the tower
+                // is holding one of its requests: then "already being retried" is the documented answer,
+                // whatever status is shown meanwhile)
                 let st = prev.towers.get(t).map(|x| x.status.clone());
-                let want_ok = matches!(st.as_deref(), Some("u") | Some("se"));
-                if (r == "ok") != want_ok && r != "timeout" {
+                let retrier_blocked = !w.towers[*t as usize].st.lock().unwrap().held.is_empty();
+                let want_ok = matches!(st.as_deref(), Some("u") | Some("se")) && !retrier_blocked;
+                if retrier_blocked && r != "err-being-retried" && r != "timeout" {
+                    out.push(Rec::Fail("C13", "manual_retry_gate".into(), format!("retrytower while the tower's retrier waits for an answer replied `{r}`")));
+                } else if !retrier_blocked && (r == "ok") != want_ok && r != "timeout" {
                     out.push(Rec::Fail("C13", "manual_retry_gate".into(), format!("retrytower on a tower shown `{}` answered `{r}`", st.unwrap_or("unknown".into()))));
                 }
                 r
@@ -602,6 +623,17 @@ pub fn corpus() -> Vec<Scenario> {
         sc("rejection-after-a-long-wait", vec![Register(0), HoldAfter(0, 0), Notify(1), Release(0, Reject), Notify(2), Restart]),
         sc("garbage-after-a-long-wait", vec![Register(0), HoldAfter(0, 0), Notify(1), Release(0, NonJson), Add(0, Accept), Retry(0)]),
         sc("wrong-signer-after-a-long-wait", vec![Register(0), Register(1), HoldAfter(0, 0), Notify(1), Release(0, BadSig), Notify(2)]),
+        // a tower that insists on a renewed subscription (as a real one does once the subscription has run out)
+        sc("subscription-runs-out-while-down", vec![Register(0), Down(0, true), Notify(1), Add(0, SubErrUntilReg), Down(0, false), Retry(0), Notify(2)]),
+        sc("subscription-runs-out-found-by-the-handler", vec![Register(0), Register(1), Add(0, SubErrUntilReg), Notify(1), Notify(2), Restart]),
+        sc("subscription-runs-out-found-after-a-restart", vec![Register(0), Down(0, true), Notify(1), Notify(2), Add(0, SubErrUntilReg), Down(0, false), Restart, Notify(3)]),
+        sc("subscription-runs-out-and-cannot-be-renewed", vec![Register(0), Down(0, true), Notify(1), Add(0, SubErrUntilReg), PEv::Reg(0, RegMode::NonJson), Down(0, false), Retry(0), PEv::Reg(0, RegMode::Accept), Retry(0)]),
+        // one appointment held by two towers in different classes, one of the towers abandoned
+        sc("abandon-one-of-two-holders-pending", vec![Register(0), Register(1), Add(0, Reject), Down(1, true), Notify(1), Abandon(1), Restart, Notify(2)]),
+        sc("abandon-one-of-two-holders-invalid", vec![Register(0), Register(1), Add(0, Reject), Add(1, Reject), Notify(1), Abandon(1), Restart]),
+        sc("abandon-one-of-two-holders-accepted", vec![Register(0), Register(1), Add(1, Reject), Notify(1), Down(0, true), Notify(2), Abandon(1), Restart]),
+        // a tower caught lying on the retry path keeps its pending data: it must stay flagged after a restart
+        sc("wrong-signer-on-retry-then-restart", vec![Register(0), Register(1), Down(0, true), Notify(1), Notify(2), Add(0, BadSig), Down(0, false), Retry(0), Restart, Notify(3), Retry(0)]),
         sc("kill-with-pending", vec![Register(0), Register(1), Down(0, true), Notify(0), Notify(1), Restart, Down(0, false), Restart, Notify(2)]),
         sc("register-replies", vec![PEv::Reg(0, RegMode::BadSig), Register(0), PEv::Reg(0, RegMode::NonJson), Register(0), PEv::Reg(0, RegMode::ApiError), Register(0), PEv::Reg(0, RegMode::Accept), Register(0), PEv::Reg(0, RegMode::Same), Register(0), PEv::Reg(0, RegMode::SameExpiry), Register(0), Down(0, true), Register(0), Notify(0)]),
         Scenario { name: "auto-retry-delivers".into(), towers: 1, opts: (2, 3, 1), events: vec![Register(0), Down(0, true), Notify(0), Notify(1), Down(0, false), AwaitDelivered(0, 14)] },
@@ -617,7 +649,7 @@ fn random_scenario(rng: &mut Rng, i: usize) -> Scenario {
         ev.push(Register(t));
     }
     let n = 5 + rng.below(6);
-    let modes = [AddMode::Accept, AddMode::Accept, AddMode::SubErr, AddMode::Reject, AddMode::NonJson, AddMode::WrongShape, AddMode::Empty, AddMode::BadSig, AddMode::MalformedSig];
+    let modes = [AddMode::Accept, AddMode::Accept, AddMode::SubErr, AddMode::SubErrUntilReg, AddMode::Reject, AddMode::NonJson, AddMode::WrongShape, AddMode::Empty, AddMode::BadSig, AddMode::MalformedSig];
     let regs = [RegMode::Accept, RegMode::Accept, RegMode::Same, RegMode::SameExpiry, RegMode::BadSig, RegMode::NonJson, RegMode::ApiError];
     for _ in 0..n {
         let t = rng.below(towers as u64) as u32;
